@@ -334,10 +334,11 @@ class SimplifyTVUnit:
         s = str(seed())
         if self.reuse_only:
             if tier == "quick":
-                return [["simplify", "1", "2", "1", "0", "255-255", "reuse"], ["simplify", "2", "2", "3", s, "255-3", "reuse"],
-                        ["simplify", "3", "3", "60", s, "3-3", "reuse"]]
+                return [["simplify", "1", "2", "1", "0", "255-255", "reuse"], ["simplify", "2", "2", "6", s, "255-3", "reuse"],
+                        ["simplify", "3", "3", "300", s, "3-3", "reuse"], ["simplify", "0", "0", "1", "0", "3-3", "reuse-wide"]]
             return [["simplify", "1", "2", "1", "0", "255-255", "reuse"], ["simplify", "1", "2", "1", "0", "255-3", "reuse"],
-                    ["simplify", "3", "3", "8", s, "3-3", "reuse"], ["simplify", "3", "3", "8", s, "255-255", "reuse"]]
+                    ["simplify", "3", "3", "8", s, "3-3", "reuse"], ["simplify", "3", "3", "8", s, "255-255", "reuse"],
+                    ["simplify", "0", "0", "1", "0", "3-3", "reuse-wide"]]
         if tier == "quick":
             return [["simplify", "1", "2", "1", "0", "255-255", "fresh"], ["simplify", "2", "2", "6", s, "255-3", "fresh"],
                     ["simplify", "2", "2", "6", s, "3-255", "fresh"], ["simplify", "3", "3", "150", s, "255-255", "fresh"],
@@ -414,11 +415,18 @@ class SimplifyTVUnit:
                 vecs.append([a, b])
         arg = ";".join(",".join("0x%08x" % v for v in vec) for vec in vecs)
         cmd = [T.TVDUMP] + rec["_args"] + [str(rec["id"]), arg]
+        if rec["_args"][-1] == "reuse-wide":
+            # the failing trace, from the solver's label ("trace LLR") or the first bookkeeping problem
+            import re as _re
+            m = _re.search(r"trace ([LRB]+)", x.get("where") or (x["problems"][0] if x["problems"] else ""))
+            cmd.append(m.group(1) if m else "")
         rc, out, _ = T.run(cmd)
         res = []
         for line in out.splitlines():
             try:
-                res.append(json.loads(line))
+                y = json.loads(line)
+                if "ok" in y:
+                    res.append(y)
             except Exception:
                 pass
         bad = [y for y in res if not y.get("ok")]
